@@ -16,7 +16,7 @@ RULE = ("family 'cell': (class, parameter set) cells over all 19 concrete distri
         "sweep (single, adjacent pair, repeated at stride 2 and 3, run of 4); family 'domain': out-of-domain parameter sets must be refused at construction; family 'wrap': every "
         "QuantityDist wrapper; non-trivial(cell) = the splice sweep hit >= 10 spliced positions and the draw "
         "consumes >= 1 uniform; distinct = canonical (class, parameters) hash")
-ASSUMPTIONS = ["numeric envelope: shape-like parameters in [0.05, 50], scales in [1e-3, 1e3], Poisson rate <= 100, Erlang k <= 40, "
+ASSUMPTIONS = ["numeric envelope: shape-like parameters in [0.05, 50], scales in [1e-3, 1e3], Poisson rate <= 2500, Erlang k <= 40, "
                "Binomial n <= 200, |mu| <= 5 and sigma in [1e-3, 5] for (log-)normal; beyond it float range, not sampler logic, decides",
                "'old stream never consumed again' is observed over the next 200 draws",
                "NaN parameters are not generated (NaN compares false with every documented bound)"]
@@ -87,7 +87,7 @@ GEN = {
     "DistNormalTrunc": _trunc,
     "DistPearson5": lambda r: [_shape(r), _scale(r)],
     "DistPearson6": lambda r: [_shape(r), _shape(r), _scale(r)],
-    "DistPoisson": lambda r: [r.choice([1e-3, 0.5, 1.0, 1, 4.5, 30, 100, round(r.uniform(0.001, 100), 3)])],
+    "DistPoisson": lambda r: [r.choice([1e-3, 0.5, 1.0, 1, 4.5, 30, 100, round(r.uniform(0.001, 100), 3), 700.0, 746, 1000.0, 2500])],
     "DistTriangular": _tri,
     "DistUniform": lambda r: (lambda lo: [lo, lo + r.choice([1, 0.5, 1e-9, 1e9])])(r.choice([0, -5.0, 2.5, 1000.0])),
     "DistWeibull": lambda r: [_shape(r), _scale(r)],
